@@ -647,6 +647,38 @@ theorem scram_adaptor_extracted :
     Gen.scramNextReturnsStepOutput = true ∧ Gen.scramNextStepsOnChallenge = true ∧
     Gen.scramStartReturnsStepError = true ∧ Gen.scramStartStepsOnEmpty = true := by decide
 
+/-! ## TLS layering: the ClientHello is the only thing ever in clear, and a failed handshake closes the socket
+
+`socketView` / `startTls` (Model/Auth.lean).  The statements are small — the content is in the tie: the fake broker
+behind TLS notes what reaches its raw socket first (`S` = a TLS handshake record, `C:<hex>` = protocol bytes in clear),
+and the shape facts below re-read where the two dial paths put the wrap. -/
+
+/-- with TLS the broker's socket sees the ClientHello first and then exactly the journal of the plain model, inside the
+channel: every theorem about the journal (only authentication requests before success, nothing after a failure, …)
+holds for what travels inside, and nothing else travels -/
+theorem tls_hello_then_journal (c : Cfg) (es : List Env) (s : State) (_h : runTls c true true es = some s) :
+    socketView true s = .hello :: s.log.map .inner := rfl
+
+theorem tls_success_is_plain_run (c : Cfg) (es : List Env) : runTls c true true es = run c es := by
+  simp [runTls, run, startTls]
+
+/-- a failed handshake: the dial has failed, the socket is closed, nothing was written and nothing can be
+(`failed_is_final`) -/
+theorem tls_handshake_failure_closes (c : Cfg) (es : List Env) (s : State) (h : runTls c true false es = some s) :
+    s.phase = .failed ∧ s.closed = true ∧ s.result.isSome = true ∧ s.log = [] ∧ es = [] := by
+  cases es with
+  | nil =>
+    simp [runTls, startTls, runFrom] at h; subst h; simp
+  | cons e es =>
+    simp only [runTls, startTls, Bool.not_false, Bool.and_self, ↓reduceIte, runFrom] at h
+    rw [failed_is_final c _ e rfl] at h
+    cases h
+
+/-- where the wrap sits, re-read from dialer.go / transport.go this run -/
+theorem tls_wrap_facts_hold :
+    Gen.transportTlsWrapsBeforeProtocolConn = true ∧ Gen.dialerHandshakesInDialContext = true ∧
+    Gen.dialerConnUsesDialContextResult = true ∧ Gen.dialerFailedHandshakeCloses = true := by decide
+
 /-! ## the control flow of the two `authenticateSASL` functions, re-extracted by symbolic execution
 
 `go/extract/saslplain/authflow.go` runs both functions symbolically over scenarios of call outcomes (handshake,
